@@ -1,6 +1,6 @@
 (* C08/Props.v — property theorems only *)
 From Coq Require Import QArith List Bool.
-From FV Require Import Base.Ser Base.Res Geom.QTools C09.Model C08.Model C08.Proofs.
+From FV Require Import Base.Ser Base.Res Geom.QTools C09.Model C08.Model C08.Proofs C08.ProofsSolve C08.ProofsRenorm C08.ProofsRenormU.
 Import ListNotations.
 Open Scope Q_scope.
 
@@ -34,3 +34,34 @@ Proof. vm_compute. reflexivity. Qed.
 Example user_meaning_example :
   renormalizeValue (mkLim (-1) (6 # 10) 1 300 500) (- (1 # 2)) == - (450 # 600).
 Proof. vm_compute. reflexivity. Qed.
+
+(* _solve is EXACT: for every tent that is continuous on the new range (a vertical flank only at or beyond an end of the range), every
+   limit triple min <= default <= max and every x in [min, max], the pieces _solve returns -- read in the OLD coordinates, before
+   rebaseTent renormalises their corners -- sum to the original tent's value at x. All geometric cases at once: peak left or right of
+   the new default (mirroring), peak beyond the range (clipping and scaling), crossing point, one or two closing tents, the EPSILON nudges
+   (which only ever carry a zero scalar), default on the peak, min == default, default == max. *)
+Theorem solve_exact : forall fuel t L sols x,
+  solve fuel t L = Ok sols -> amin L <= adef L -> adef L <= amax L -> good t L ->
+  amin L <= x -> x <= amax L ->
+  sols_raw sols x == rawtent t x.
+Proof. exact ProofsSolve.solve_exact. Qed.
+Print Assumptions solve_exact.
+
+(* ... the model's fuel always suffices, and dropping the zero-scalar pieces (as rebaseTent does) keeps the sum *)
+Theorem rebase_pieces_exact : forall t L x,
+  amin L <= adef L -> adef L <= amax L -> good t L -> amin L <= x -> x <= amax L ->
+  exists sols, solve 4 t L = Ok sols /\
+    sols_raw (filter (fun s : sol => negb (Qeqb (fst s) 0)) sols) x == rawtent t x.
+Proof. exact ProofsSolve.rebase_pieces_exact. Qed.
+Print Assumptions rebase_pieces_exact.
+
+(* rebaseTent END TO END: the pieces it returns (zero scalars dropped, corners renormalised), evaluated the way OpenType evaluates
+   regions (tentval: a region whose peak is 0 or that spans 0 is ignored) at the renormalised location, give the original tent's value
+   at every location of the new range -- for every tent continuous on the new range, every limit triple (default kept or moved, range
+   one-sided or spanning the old default) and every pair of positive user-space distances. The instanced font therefore weights each
+   delta set exactly as the original does at the corresponding location. *)
+Theorem rebase_exact : forall t L out x,
+  rebaseTent t L = Ok out -> good t L -> 0 < dneg L -> 0 < dpos L -> amin L <= x -> x <= amax L ->
+  sols_value out (renormalizeValue L x) == tentval t x.
+Proof. exact ProofsRenormU.rebase_exact. Qed.
+Print Assumptions rebase_exact.
